@@ -51,6 +51,7 @@ var g2lStd = map[string]stdFn{
 	"bytes.TrimSuffix":       {"trimSuffix", false},
 	"bytes.TrimPrefix":       {"trimPrefix", false},
 	"strings.Split":          {"split", false},
+	"strings.IndexFunc":      {"indexFunc", false},
 	"strings.Join":           {"join", false},
 	"strings.ToLower":        {"toLowerASCIIorUnicode", false},
 	"utf8.RuneError":         {"(65533 : Int)", false},
@@ -118,6 +119,13 @@ func (f *g2lFn) call(b *binds, e *ast.CallExpr) string {
 		}
 		f.useAbs(p)
 		return "(" + p + " " + strings.Join(args, " ") + ")"
+	}
+	if s, ok := f.u.stdCalls[strings.Join(strings.Fields(show(e.Fun)), "")]; ok {
+		t := "(" + s.lean + " " + strings.Join(f.args(b, e), " ") + ")"
+		if s.fx {
+			return f.bindM(b, t)
+		}
+		return t
 	}
 	pkg, name, obj := f.calleeName(e)
 	if p, ok := f.u.absFuncs[pkg+"."+name]; ok && pkg != "" {
@@ -447,7 +455,20 @@ func (f *g2lFn) stmts(list []ast.Stmt, k kont) []string {
 			vals = f.expr(&b, s.Results[0])
 		default:
 			parts := []string{}
-			for i, r := range s.Results {
+			results := append([]ast.Expr{}, s.Results...)
+			// `return nil, &T{x}` with T configured in errCarry: x travels in the first result slot
+			if len(results) == 2 {
+				if id, ok := results[0].(*ast.Ident); ok && id.Name == "nil" {
+					if ue, ok := results[1].(*ast.UnaryExpr); ok && ue.Op == token.AND {
+						if cl, ok := ue.X.(*ast.CompositeLit); ok && len(cl.Elts) == 1 {
+							if n, ok := f.typeOf(cl).(*types.Named); ok && f.u.errCarry[n.Obj().Name()] {
+								results[0] = cl.Elts[0]
+							}
+						}
+					}
+				}
+			}
+			for i, r := range results {
 				parts = append(parts, f.exprAs(&b, r, f.results[i].Type()))
 			}
 			vals = tuple(parts)
@@ -650,6 +671,16 @@ func (f *g2lFn) ifStmt(s *ast.IfStmt, rest kont) []string {
 	var b binds
 	c := f.expr(&b, s.Cond)
 	lines = append(lines, b.lines...)
+	if c == "false" || c == "true" {
+		// statically decided (e.g. `known == nil` for an interface value that is never nil): the dead branch is not translated
+		var live []ast.Stmt
+		if c == "true" {
+			live = s.Body.List
+		} else if s.Else != nil {
+			live = []ast.Stmt{s.Else}
+		}
+		return append(lines, f.stmts(live, rest)...)
+	}
 	uses := 0
 	if f.falls(s.Body.List) {
 		uses++
